@@ -33,6 +33,7 @@ func compileRegexp(pattern string) (*re.Regexp, error) {
 		}
 	}
 
+	verifGate("rexp.miss")
 	r, err := re.Compile(pattern)
 	if err != nil {
 		return nil, err
@@ -54,8 +55,10 @@ func mustCompileRegexp(pattern string) *re.Regexp {
 }
 
 func cacheRegexp(r *re.Regexp) {
+	verifGate("rexp.lock")
 	cacheMutex.Lock()
 	defer cacheMutex.Unlock()
+	verifGate("rexp.locked")
 
 	if cache, ok := reDict.Load().(map[string]*re.Regexp); !ok || cache[r.String()] == nil {
 		newCache := map[string]*re.Regexp{
@@ -66,6 +69,8 @@ func cacheRegexp(r *re.Regexp) {
 			newCache[k] = v
 		}
 
+		verifGate("rexp.beforeStore")
 		reDict.Store(newCache)
+		verifGate("rexp.stored")
 	}
 }
